@@ -119,11 +119,29 @@ def make_canary(u):
     canaries = []
     for fn in fns:
         lo, hi = fn["gen_start"] - 1, fn["gen_end"]
-        out.extend(u.lines[pos:hi])
+        # the ORIGINAL is kept as an external_body stub (signature + real contract, body not re-verified here: the main
+        # run does that); only the `__canary` copy carries the body
+        out.extend(u.lines[pos:lo])
+        if not fn.get("stubbed"):
+            out.append(("#[verifier::external_body]", "sidecar:canary"))
+            body_started = False
+            for (t, s_) in u.lines[lo:hi]:
+                if not body_started and s_ and not s_.startswith("sidecar:") and t.lstrip().startswith("{"):
+                    body_started = True
+                    out.append(("{ unimplemented!() }", "sidecar:canary"))
+                    continue
+                if not body_started:
+                    if s_ and s_.startswith("sidecar:") and re.match(r"^\s*#\[verifier::", t):
+                        continue
+                    out.append((extract.LABEL_RE.sub("", t), s_))
+        else:
+            out.extend(u.lines[lo:hi])
         pos = hi
         copy = []
         if fn.get("attr"):
-            copy.append((fn["attr"], "sidecar:canary"))
+            # the copy only has to FAIL to prove `false`: it gets the default resource limit, not the function's own
+            a = re.sub(r"#\[verifier::rlimit\(\d+\)\]", "", fn["attr"]).strip()
+            copy.append((a if a else "// (default rlimit for the canary copy)", "sidecar:canary"))
         renamed = False
         added = False
         for (t, s) in u.lines[lo:hi]:
@@ -157,7 +175,11 @@ def make_canary(u):
 
 
 def run_verus(rs, extra=None):
-    cmd = ["verus", os.path.basename(rs)] + VERUS_FLAGS + (extra or [])
+    flags = list(VERUS_FLAGS)
+    if extra and "--multiple-errors" in extra:
+        i = flags.index("--multiple-errors")
+        del flags[i:i + 2]
+    cmd = ["verus", os.path.basename(rs)] + flags + (extra or [])
     rc, out, err, wall = sh(cmd, cwd=os.path.dirname(rs), timeout=900)
     diags = []
     for line in err.split("\n"):
@@ -335,7 +357,7 @@ def canary_unit(unit):
         rs, meta = build_unit(unit, canary=True)
     except Inconclusive:
         rs, meta = build_unit(unit, canary=True, lenient=True)
-    res = run_verus(rs)
+    res = run_verus(rs, ["--multiple-errors", "0"])     # one error per copy is enough: the copy only has to fail
     failures, tool = classify(res, meta, unit)
     hard = [t for t in tool if t.get("code") or not RLIMIT_MSG.search(t.get("message") or "")]
     if hard:
